@@ -159,12 +159,18 @@ func worker(args []string) {
 	}
 	// watchdog: a run that makes no progress for 60 s is reported and the worker exits
 	go func() {
+		lastBeats, lastChange := sim.Beats(), time.Now()
 		for {
 			time.Sleep(2 * time.Second)
 			cur.Lock()
 			i, since := cur.i, cur.since
 			cur.Unlock()
-			if !since.IsZero() && time.Since(since) > 60*time.Second {
+			if b := sim.Beats(); b != lastBeats || since.IsZero() {
+				lastBeats, lastChange = b, time.Now()
+				continue
+			}
+			// the harness heartbeat has stood still for a minute inside a run: a call into the library hangs
+			if time.Since(lastChange) > 60*time.Second {
 				emit(msg{T: "hang", I: i})
 				props.CleanupScratch()
 				os.Exit(3)
@@ -890,6 +896,27 @@ func replay(args []string) int {
 	saved := os.NewFile(uintptr(dupStdout()), "report")
 	props.Silence()
 	defer props.CleanupScratch()
+	// the same heartbeat watchdog as in the workers: a replayed hang is reported, not waited for
+	go func() {
+		lastBeats, lastChange := sim.Beats(), time.Now()
+		for {
+			time.Sleep(2 * time.Second)
+			if b := sim.Beats(); b != lastBeats {
+				lastBeats, lastChange = b, time.Now()
+				continue
+			}
+			if time.Since(lastChange) > 60*time.Second {
+				props.CleanupScratch()
+				if strings.HasSuffix(want, ":non-termination") {
+					fmt.Fprintf(os.Stderr, "[verif] replay: a call into the library did not return within 60 s\n")
+					fmt.Fprintf(saved, "VIOLATION property=%s replay=%s\n", rf.Property, args[0])
+					os.Exit(1)
+				}
+				fmt.Fprintf(os.Stderr, "[verif] replay hung (expected %s)\n", want)
+				os.Exit(3)
+			}
+		}
+	}()
 	if rf.History && rf.Of > 0 {
 		// re-execute what the worker process had executed before the failing run
 		fmt.Fprintf(os.Stderr, "[verif] replay with process history: runs %d, %d, ... %d of batch seed %d\n", rf.Shard, rf.Shard+rf.Of, rf.Run, rf.Seed)
